@@ -53,7 +53,75 @@ def _plain_params(fn, n):
     a = fn.args
     if a.vararg or a.kwarg or a.kwonlyargs or a.posonlyargs or len(a.args) != n:
         raise GenError('%s: unexpected parameter list %s' % (fn.name, _src(a)))
+    if fn.decorator_list:
+        # a decorator can change what the function returns or share its result (functools.cache ...)
+        raise GenError('%s: decorated (%s)' % (fn.name, ', '.join(_src(d) for d in fn.decorator_list)))
+    if isinstance(fn, ast.AsyncFunctionDef):
+        raise GenError('%s: async' % fn.name)
     return [x.arg for x in a.args]
+
+
+def _is_empty_dict(n):
+    """`{}` or `dict()`"""
+    return (isinstance(n, ast.Dict) and not n.keys) or \
+        (isinstance(n, ast.Call) and _is_name(n.func, 'dict') and not n.args and not n.keywords)
+
+
+def _empty_defaults(fn, params):
+    """every default argument value must be an empty dict: a caller that omits the argument supplies no layer"""
+    for d in fn.args.defaults:
+        if not _is_empty_dict(d):
+            raise GenError('%s: default argument %s' % (fn.name, _src(d)))
+    return params[len(params) - len(fn.args.defaults):]
+
+
+def _as_assign(st):
+    """`x = e` and `x: T = e` -> (target, value), else None"""
+    if isinstance(st, ast.Assign) and len(st.targets) == 1:
+        return st.targets[0], st.value
+    if isinstance(st, ast.AnnAssign) and st.value is not None and st.simple:
+        return st.target, st.value
+    return None
+
+
+def _check_module_bindings(tree):
+    """config.py, module level: merged_data / Config are bound once (def / class) and never rebound; the
+    built-in tables are bound once by a plain assignment; nothing but imports, assignments, doc strings,
+    functions and classes at top level (a loop or an `if` could rebind or patch anything)."""
+    funcs = ('merged_data',)
+    classes = ('Config',)
+    tables = ('DEFAULT_CONFIG', 'SYNTAX_CONFIG', 'DEFAULT_SYNTAXES', 'SYNTAXES', 'DEFAULT_OPTIONS')
+    bound = {}
+
+    def bind(name, how):
+        bound.setdefault(name, []).append(how)
+    for st in tree.body:
+        if isinstance(st, (ast.Import, ast.ImportFrom)):
+            for a in st.names:
+                bind((a.asname or a.name).split('.')[0], 'import')
+        elif isinstance(st, ast.FunctionDef):
+            bind(st.name, 'def')
+        elif isinstance(st, ast.ClassDef):
+            bind(st.name, 'class')
+        elif isinstance(st, ast.Expr) and isinstance(st.value, ast.Constant) and isinstance(st.value.value, str):
+            pass
+        elif _as_assign(st) is not None or isinstance(st, ast.Assign):
+            tgts = st.targets if isinstance(st, ast.Assign) else [st.target]
+            for t in tgts:
+                for n in ast.walk(t):
+                    if isinstance(n, ast.Name) and isinstance(n.ctx, ast.Store):
+                        bind(n.id, 'assign')
+        else:
+            raise GenError('config.py: unrecognised module-level statement: %s' % _src(st).split('\n')[0])
+    for n in funcs:
+        if bound.get(n) != ['def']:
+            raise GenError('config.py: %s bound as %s' % (n, bound.get(n)))
+    for n in classes:
+        if bound.get(n) != ['class']:
+            raise GenError('config.py: %s bound as %s' % (n, bound.get(n)))
+    for n in tables:
+        if bound.get(n) != ['assign']:
+            raise GenError('config.py: %s bound as %s' % (n, bound.get(n)))
 
 
 # ---------------------------------------------------------------- merged_data
@@ -62,9 +130,7 @@ def parse_merged_data(tree):
     'SrcDefault' | 'SrcUser' | 'SrcSyntaxConfig ByType' | ... in statement order."""
     fn = _find_func(tree.body, 'merged_data')
     p_type, p_syntax, p_key, p_user, p_global = _plain_params(fn, 5)
-    for d in fn.args.defaults:
-        if not (isinstance(d, ast.Dict) and not d.keys):
-            raise GenError('merged_data: default argument %s' % _src(d))
+    _empty_defaults(fn, [p_type, p_syntax, p_key, p_user, p_global])
     tables = {'SYNTAX_CONFIG': 'SrcSyntaxConfig', p_global: 'SrcGlobal'}
     direct = {'DEFAULT_CONFIG': 'SrcDefault', p_user: 'SrcUser'}
     selectors = {p_type: 'ByType', p_syntax: 'BySyntax'}
@@ -75,8 +141,14 @@ def parse_merged_data(tree):
     notes = []
     returned = False
 
+    used_as_default = set()
+
     def is_empty(n):
-        return (isinstance(n, ast.Dict) and not n.keys) or (isinstance(n, ast.Name) and n.id in empties)
+        if isinstance(n, ast.Name):
+            used_as_default.add(n.id)
+        # a fresh `{}` / `dict()` or a local that holds one and is never written to (the accumulator is
+        # removed from `empties` as soon as it receives its first update)
+        return _is_empty_dict(n) or (isinstance(n, ast.Name) and n.id in empties)
 
     def container(n, where):
         """expression denoting one layer config -> source"""
@@ -109,22 +181,30 @@ def parse_merged_data(tree):
     for st in body:
         if returned:
             raise GenError('merged_data: statement after return: %s' % _src(st))
-        # empty = {}   /  result = {}
-        if isinstance(st, ast.Assign) and len(st.targets) == 1 and _is_name(st.targets[0]):
-            name = st.targets[0].id
+        # empty = {}   /  result = {}   (also annotated: `result: dict = {}`)
+        asg = _as_assign(st)
+        if asg is not None and _is_name(asg[0]):
+            name = asg[0].id
+            st_value = asg[1]
             if name in (p_type, p_syntax, p_key, p_user, p_global, 'SYNTAX_CONFIG', 'DEFAULT_CONFIG') \
                     or name in layer_vars or name in empties or name == result:
                 raise GenError('merged_data: rebinding of %s' % name)
-            if isinstance(st.value, ast.Dict) and not st.value.keys:
+            if _is_empty_dict(st_value):
                 if stmts or result is not None:
                     raise GenError('merged_data: second accumulator %s' % name)
                 # the first `{}` that later receives .update() is the accumulator; decide lazily
                 empties.add(name)
                 continue
-            g = get_call(st.value)
+            g = get_call(st_value)
             if g is not None and _is_name(g[0]) and g[0].id in tables and _is_name(g[1]) and g[1].id in selectors:
                 layer_vars[name] = '%s %s' % (tables[g[0].id], selectors[g[1].id])
-                notes.append('%s = %s' % (name, _src(st.value)))
+                notes.append('%s = %s' % (name, _src(st_value)))
+                continue
+            # another name for a layer that was fetched already (never for a `{}`: that would alias the
+            # accumulator with the default)
+            if _is_name(st_value) and st_value.id in layer_vars:
+                layer_vars[name] = layer_vars[st_value.id]
+                notes.append('%s = %s' % (name, st_value.id))
                 continue
             raise GenError('merged_data: unrecognised assignment: %s' % _src(st))
         # result.update(X.get(key, empty))
@@ -170,6 +250,8 @@ def parse_merged_data(tree):
         raise GenError('merged_data: unrecognised statement: %s' % _src(st))
     if not returned:
         raise GenError('merged_data: no `return result`')
+    if result in used_as_default:
+        raise GenError('merged_data: the accumulator %s is also used as a default value' % result)
     return stmts, notes
 
 
@@ -180,6 +262,7 @@ def parse_config_init(tree):
         raise GenError('expected exactly one class Config')
     fn = _find_func(cls[0].body, '__init__')
     p_self, p_user, p_global = _plain_params(fn, 3)
+    _empty_defaults(fn, [p_self, p_user, p_global])
     default_type = fallback_syntax = None
     v_type = v_syntax = None
     sections = []
@@ -199,9 +282,10 @@ def parse_config_init(tree):
     if body and isinstance(body[0], ast.Expr) and _const_str(body[0].value) is not None:
         body = body[1:]
     for st in body:
-        if not (isinstance(st, ast.Assign) and len(st.targets) == 1):
+        asg = _as_assign(st)
+        if asg is None:
             raise GenError('Config.__init__: unrecognised statement: %s' % _src(st))
-        tgt, val = st.targets[0], st.value
+        tgt, val = asg
         if _is_name(tgt):
             g = user_get(val)
             if g and g[0] == 'type' and v_type is None and g[1] is not None and _const_str(g[1]) is not None:
@@ -248,22 +332,57 @@ def parse_config_init(tree):
 
 
 def parse_expand(tree):
-    """emmet/__init__.py: expand(abbr, config, global_config) must build the Config
-    from its 2nd and 3rd parameter in that order."""
+    """emmet/__init__.py: expand(abbr, config, global_config) must build the Config from its 2nd and 3rd
+    parameter in that order, either unconditionally (`x = Config(config, global_config)`) or in the
+    else-branch of `if isinstance(config, Config): x = config`; x is not rebound afterwards."""
     fn = _find_func(tree.body, 'expand')
     p = _plain_params(fn, 3)
+    _empty_defaults(fn, p)
     calls = [n for n in ast.walk(fn) if isinstance(n, ast.Call) and _is_name(n.func, 'Config')]
     if len(calls) != 1:
         raise GenError('expand: expected one Config(...) call, found %d' % len(calls))
     c = calls[0]
     if not (len(c.args) == 2 and not c.keywords and _is_name(c.args[0], p[1]) and _is_name(c.args[1], p[2])):
         raise GenError('expand: unexpected call %s' % _src(c))
+
+    def assigns_call(st):
+        a = _as_assign(st)
+        return a[0].id if a is not None and _is_name(a[0]) and a[1] is c else None
+    target = None
+    where = None
+    for i, st in enumerate(fn.body):
+        t = assigns_call(st)
+        if t is not None:
+            target, where = t, i
+            break
+        if isinstance(st, ast.If) and any(n is c for n in ast.walk(st)):
+            t = st.test
+            ok = (isinstance(t, ast.Call) and _is_name(t.func, 'isinstance') and len(t.args) == 2 and not t.keywords
+                  and _is_name(t.args[0], p[1]) and _is_name(t.args[1], 'Config')
+                  and len(st.body) == 1 and len(st.orelse) == 1)
+            if ok:
+                a = _as_assign(st.body[0])
+                tt = assigns_call(st.orelse[0])
+                ok = a is not None and _is_name(a[0]) and _is_name(a[1], p[1]) and tt == a[0].id
+            if not ok:
+                raise GenError('expand: unrecognised statement around the Config(...) call: %s' % _src(st).split('\n')[0])
+            target, where = tt, i
+            break
+    if target is None:
+        raise GenError('expand: the Config(...) call is not a plain assignment at function level')
+    if target in p:
+        raise GenError('expand: the Config is assigned to the parameter %s' % target)
+    for st in fn.body[where + 1:]:
+        for n in ast.walk(st):
+            if isinstance(n, ast.Name) and n.id == target and not isinstance(n.ctx, ast.Load):
+                raise GenError('expand: %s is rebound: %s' % (target, _src(st).split('\n')[0]))
     return True
 
 
 def gen_layer_order():
     with open(os.path.join(REPO, 'emmet', 'config.py'), encoding='utf-8') as f:
         tree = ast.parse(f.read())
+    _check_module_bindings(tree)
     stmts, notes = parse_merged_data(tree)
     default_type, fallback_syntax, sections = parse_config_init(tree)
     with open(os.path.join(REPO, 'emmet', '__init__.py'), encoding='utf-8') as f:
